@@ -124,7 +124,9 @@ func (s *SourceFileSet) file(p Pos) *SourceFile {
 
 		// f.base <= int(p) by definition of searchFiles
 		if int(p) <= f.Base+f.Size {
-			s.LastFile = f // race is ok - s.last is only a cache
+			// LastFile is not updated here: the file set of a compiled
+			// script is shared by all its clones, which format error
+			// positions concurrently
 			return f
 		}
 	}
